@@ -331,8 +331,11 @@ class C20(Prop):
                    103: 'a date/duration has more than k significant digits (not a value at the context precision)',
                    110: 'Python decimal operation disagrees with the Gallina model (add_k / of_lit / scan / dec_cmp)',
                    111: 'arrival dates of a low-precision exact run are not the model\'s running sums add_k',
-                   112: 'kernel (vm_compute) and extracted evaluation of the decimal model disagree'}
-    level_text = 'Decimal.v theorems + T1 C20_sound; K1 conformance of real exact runs against the tick run; object differential vs decimal'
+                   112: 'kernel (vm_compute) and extracted evaluation of the decimal model disagree',
+                   220: 'every sampled value and timetable value of the run is a multiple of g, but a date or duration of a state or record of the real engine is not '
+                        '(it is not in the additive group the samples generate: DateSum.run_many_grid / DateSum2.run_many_grid), or a record duration is not the difference of its dates'}
+    level_text = ('Decimal.v theorems + T1 C20_sound; T2 on both engine models (DateSum.v, DateSum2.v: dates are sums of samples, grid theorems) evaluated on real snapshots '
+                  'and records of scaled tick runs with K2 on the date slice; K1 conformance of real exact runs against the tick run; object differential vs decimal')
     assumptions = ['exact-mode inputs are decimal literals: every sample s satisfies Decimal(str(s)) = ticks/10^d (generator grids 1/4, 1/10, 1/1000, 10^-8)',
                    'the float run on the dyadic grid 1/4 is exact binary arithmetic and is used as the integer tick run',
                    'Schedule/Slotted shift dates are computed by the Schedule object in binary floating point; configurations whose '
@@ -686,6 +689,21 @@ class C20(Prop):
                     res['gap'] = float(gap)
                 res['gap_diverged'] = diverged
         st['float_date_pseudo_ties'] = A['pseudo']
+        # (d) dates are sums of SAMPLED VALUES and nothing else: the T2 theorems of Inv/DateSum.v / DateSum2.v on the real engine
+        if v[0] == 'A' and A['exc'] is None and not job.get('explicit'):
+            gm = self.grid_run(job, drv, st)
+            if gm is not None:
+                if gm.get('what', '').startswith('grid'):
+                    # a concrete failing input: every sample and timetable value is a multiple of g, a date / duration of the run is not
+                    v = ('R', gm.get('frame') or 0, 220, [])
+                    res['verdict'] = v
+                    res['cfg'] = dict(gm['cfg'], replay_job=rj)
+                    res['finding'] = None
+                    res['detail'] = {k_: x for k_, x in gm.items() if k_ != 'cfg'}
+                    res['nontrivial'] = False
+                    return res
+                res['soft'] = {'clause': 900, 'frame': gm.get('frame'), 'k2': {k_: x for k_, x in gm.items() if k_ != 'cfg'}, 'cfg': gm['cfg'], 'finding': None,
+                               'detail': {k_: x for k_, x in gm.items() if k_ != 'cfg'}}
         if v[0] != 'A':
             res['cfg'] = dict(cfg, exact=k, c20_mode=job['mode'], replay_job=rj)
             res['finding'] = self.match_finding(A, B, D, mult, k, d)
@@ -706,6 +724,58 @@ class C20(Prop):
             text = sx.dump(tree)
             res['kernel_case'] = sx.to_coq(tree) if len(text) < 30000 else None
         return res
+
+    # the slice of the engine state / records C20 reads: every date and duration (the same slice as C02)
+    k2_dates = {('top', 'now'), ('top', 'next_active'), ('arr', 'dates'), ('arr', 'next_date'), ('server', 'next_end'), ('server', 'busy_time'), ('server', 'total_time'),
+                ('node', 'next_date'), ('ind', 'send'), ('ind', 'sst'), ('ind', 'stime'), ('ind', 'arr'), ('ind', 'exit'), ('rec', 'arr'), ('rec', 'wait'), ('rec', 'sst'),
+                ('rec', 'stime'), ('rec', 'send'), ('rec', 'blocked'), ('rec', 'exit'), ('rec', '*')}
+
+    def grid_run(self, job, drv, st):
+        """The generated integer-tick configuration with EVERY time value (samples, timetables, horizon) multiplied by g in {3, 7, 10, 11} is run
+        by the real engine under observation; then (i) K2: the Gallina engine model (stage 1 or 2) is stepped from the implementation's own
+        snapshots and draws and must agree on the date slice, (ii) T2 on real data: the extracted booleans DateSum.ds_b / DateSum2.ongrid_b,
+        logon_b, grid_b, drawson_b (dispatch_model 43 / 42) say that the hypotheses of the grid theorems hold (samples and timetable multiples
+        of g) and that every date and duration of every snapshot and every record is a multiple of g, i.e. lies in the additive group the
+        samples generate: no constant, no rounding, no other operation has touched a date.  -> None, or the mismatch (with 'cfg')."""
+        import gen, netbuild, engine_k2, engine_k2b
+        cfg0 = gen.gen(job['region'], job['gseed'], job.get('size', 'quick'))
+        for key in ('ps', 'ps_thr', 'tracker', 'detector'):
+            cfg0.pop(key, None)
+        rng = random.Random('c20/g/%s/%d' % (job['region'], job['gseed']))
+        g = rng.choice([3, 7, 10, 11])
+        T = cfg0['run'][1] if cfg0['run'][0] == 'time' else 120
+        cfgG = remap_cfg(cfg0, lambda t: t * g, T * g)
+        nfr = 120 if job.get('size', 'quick') == 'quick' else 400
+        cfgG['max_frames'] = nfr
+        try:
+            tr = netbuild.run_cfg(cfgG, max_frames=nfr)
+        except Exception as e:
+            st['grid_runs_skipped'] = 1
+            return None
+        if getattr(tr, 'rejected', False) or tr.init is None or tr.exc is not None:
+            st['grid_runs_skipped'] = 1          # the engine itself fails on this configuration (other properties' findings)
+            return None
+        if engine_k2.in_scope(cfgG):
+            k2 = engine_k2.check_trace(tr, drv, max_frames=nfr, mask=self.k2_dates, inv_mask=set(), grid=g)
+            st['grid_runs_stage1'] = 1
+        elif engine_k2b.in_scope(cfgG):
+            k2 = engine_k2b.check_trace(tr, drv, max_frames=nfr, mask=self.k2_dates, inv_mask=set(), grid=g)
+            st['grid_runs_stage2'] = 1
+        else:
+            st['grid_runs_skipped'] = 1
+            return None
+        st['grid_k2_frames'] = k2['frames']
+        st['grid_real_snapshots_on_the_grid'] = k2.get('grid_frames', 0)
+        st['grid_g_%d' % g] = 1
+        if k2['mismatch']:
+            m = dict(k2['mismatch'])
+            if 'invariants' in m:
+                # an invariant of ANOTHER property fails on a real snapshot: not C20's slice
+                st['grid_other_invariant'] = 1
+                return None
+            m['cfg'] = dict(cfgG, c20_grid=g)
+            return m
+        return None
 
     def match_finding(self, A, B, D, mult, k, d):
         """F-20c (only if it is an OPEN entry of known_findings.json): the exact run compared a Decimal event date with a
